@@ -1895,8 +1895,9 @@ def _bare(t):
 
 def rule_integer_dispatch(out, tier):
     rid = "CW1"
-    out.rule(rid, "serializers.h WriteInteger/ReadInteger<T>: the varint routine receives a value of T's own signedness and of the routine's width — T itself only in a template "
-                  "constrained to sizeof(T) == width/8 (overload resolution then picks T's overload), otherwise a fixed-width type chosen under `if constexpr (std::is_signed_v<T>)` "
+    out.rule(rid, "serializers.h WriteInteger/ReadInteger<T>: the varint routine receives a value of T's own signedness and of the routine's width — T itself only where "
+                  "sizeof(T) is known to be width/8 (template constraint or `if constexpr (sizeof(T) == N)`; overload resolution then picks T's overload), otherwise a fixed-width "
+                  "type chosen by T's signedness (`if constexpr (std::is_signed_v<T>)`, or an alias std::conditional_t<is_(un)signed_v<T>, …>) "
                   "(an unsigned 16-bit value passed as is promotes to int and is zig-zag encoded)", 6)
     roots, rc, err = dump(out.repo, "serializers.h")
     rel = BIN + "/serializers.h"
@@ -1909,8 +1910,17 @@ def rule_integer_dispatch(out, tier):
         text = ""
     for r in roots:
         annotate_lines(r)
+    # alias templates that choose a fixed-width type by the signedness of T
+    sign_following = {}
+    for m in re.finditer(r"using\s+(\w+)\s*=\s*(?:typename\s+)?std::conditional_t<\s*std::is_(un)?signed_v<\s*T\s*>\s*,\s*([\w:]+)\s*,\s*([\w:]+)\s*>", text):
+        a, b = m.group(3).replace("std::", ""), m.group(4).replace("std::", "")
+        if a in _INT_TYPES and b in _INT_TYPES and _INT_TYPES[a][0] == _INT_TYPES[b][0]:
+            when_unsigned, when_signed = (a, b) if m.group(2) else (b, a)
+            if not _INT_TYPES[when_unsigned][1] and _INT_TYPES[when_signed][1]:
+                sign_following[m.group(1)] = _INT_TYPES[a][0]
     seen = set()
     n = 0
+    counts = {}
     for r in roots:
         for td in walk(r):
             if td.get("kind") != "FunctionTemplateDecl" or td.get("name") not in ("WriteInteger", "ReadInteger"):
@@ -1918,60 +1928,83 @@ def rule_integer_dispatch(out, tier):
             if td.get("id") in seen:
                 continue
             seen.add(td.get("id"))
-            size = None
+            sizes = set()
             for c in td.get("inner") or []:
                 if c.get("kind") == "NonTypeTemplateParmDecl":
-                    m = re.search(r"sizeof\(T\) == (\d+)", (c.get("type") or {}).get("qualType", ""))
-                    if m:
-                        size = int(m.group(1))
+                    sizes |= {int(x) for x in re.findall(r"sizeof\(T\) == (\d+)", (c.get("type") or {}).get("qualType", ""))}
             fd = next((c for c in td.get("inner") or [] if c.get("kind") == "FunctionDecl" and body_of(c) is not None), None)
-            if fd is None or size is None:
+            if fd is None or not sizes:
                 continue
 
-            def visit(node, sign):
+            def visit(node, sign, sizes):
                 nonlocal n
                 if not isinstance(node, dict):
                     return
                 k = node.get("kind")
                 inner = [c for c in (node.get("inner") or []) if isinstance(c, dict)]
-                if k == "IfStmt" and node.get("isConstexpr") and inner and "is_signed_v" in (_src(inner[0], text) or txt(inner[0]) or str(inner[0].get("name"))):
-                    neg = _src(inner[0], text).lstrip().startswith("!")
-                    if len(inner) > 1:
-                        visit(inner[1], (not neg))
-                    if len(inner) > 2:
-                        visit(inner[2], neg)
-                    return
+                if k == "IfStmt" and node.get("isConstexpr") and inner:
+                    ctext = _src(inner[0], text) or txt(inner[0]) or ""
+                    if "is_signed_v" in ctext or "is_unsigned_v" in ctext:
+                        pos_sign = ("is_signed_v" in ctext) != ctext.lstrip().startswith("!")
+                        if len(inner) > 1:
+                            visit(inner[1], pos_sign, sizes)
+                        if len(inner) > 2:
+                            visit(inner[2], not pos_sign, sizes)
+                        return
+                    ms = re.fullmatch(r"\s*\(?\s*sizeof\(T\)\s*(==|!=)\s*(\d+)\s*\)?\s*", ctext)
+                    if ms:
+                        nsz = int(ms.group(2))
+                        eq, ne = sizes & {nsz}, sizes - {nsz}
+                        if ms.group(1) == "!=":
+                            eq, ne = ne, eq
+                        if len(inner) > 1:
+                            visit(inner[1], sign, eq)
+                        if len(inner) > 2:
+                            visit(inner[2], sign, ne)
+                        return
                 if k in ("CXXMemberCallExpr", "CallExpr") and len(inner) >= 2:
                     callee = inner[0].get("name") or ""
                     if not callee:
                         callee = _src(inner[0], text).split(".")[-1].split("->")[-1]
                     m = re.match(r"(Write|Read)VarInt(32|64)$", callee)
-                    if m:
+                    if m and sizes:
                         n += 1
                         width = int(m.group(2))
                         at = _bare((inner[1].get("type") or {}).get("qualType", ""))
-                        key = "%s<sizeof %d>/%s/%s" % (td.get("name"), size, callee, {True: "signed", False: "unsigned", None: "any"}[sign])
+                        if at in ("<dependent type>",):
+                            # the written type of a dependent argument: a cast to an alias (`static_cast<Alias<T>>(value)`)
+                            cast = next((y for y in walk(inner[1]) if y.get("kind") in ("CXXStaticCastExpr", "CXXFunctionalCastExpr", "CStyleCastExpr")), None)
+                            if cast is not None:
+                                at = _bare((cast.get("type") or {}).get("qualType", ""))
+                        szs = ",".join(str(x) for x in sorted(sizes))
+                        k0 = "%s<sizeof %s>/%s/%s" % (td.get("name"), szs, callee, {True: "signed", False: "unsigned", None: "any"}[sign])
+                        counts[k0] = counts.get(k0, 0) + 1
+                        key = k0 if counts[k0] == 1 else "%s#%d" % (k0, counts[k0])
                         posn = "%s:%d" % (rel, node.get("_line", 0))
+                        alias = re.match(r"(\w+)<T>$", at)
                         if at in _INT_TYPES:
                             w, sg = _INT_TYPES[at]
                             if sign is None:
-                                out.bad(rid, key, posn, "%s is called with a %s for every T of %d bytes: the %s half of those types is written with the other half's encoding "
-                                        "(zig-zag for signed, plain for unsigned)" % (callee, at, size, "unsigned" if sg else "signed"))
+                                out.bad(rid, key, posn, "%s is called with a %s for every T of %s bytes: the %s half of those types is written with the other half's encoding "
+                                        "(zig-zag for signed, plain for unsigned)" % (callee, at, szs, "unsigned" if sg else "signed"))
                             elif w != width or sg != sign:
                                 out.bad(rid, key, posn, "under is_signed_v<T> == %s the routine %s receives a %s" % (sign, callee, at))
                             else:
                                 out.ok(rid, key, posn, "%s receives %s where T is %s" % (callee, at, "signed" if sign else "unsigned"))
+                        elif alias and alias.group(1) in sign_following:
+                            out.check(sign_following[alias.group(1)] == width, rid, key, posn, "%s receives %s, a %d-bit type with T's signedness" % (callee, at, width),
+                                      "%s receives %s, which is %d bits wide" % (callee, at, sign_following[alias.group(1)]))
                         elif at in ("T", "<dependent type>"):
-                            if size * 8 == width:
+                            if all(sz * 8 == width for sz in sizes):
                                 out.ok(rid, key, posn, "T itself, and sizeof(T) is the width of the routine: T's own overload is selected")
                             else:
-                                out.bad(rid, key, posn, "a %d-byte T is handed to %s as it is: integral promotion turns it into int, the signed overload is selected and an unsigned value is "
-                                        "zig-zag encoded (twice the value on the wire)" % (size, callee))
+                                out.bad(rid, key, posn, "a T of %s bytes is handed to %s as it is: integral promotion turns a narrower T into int, the signed overload is selected and an "
+                                        "unsigned value is zig-zag encoded (twice the value on the wire)" % (szs, callee))
                         else:
                             out.undecided(rid, key, posn, "argument of type `%s` not understood" % at)
                 for c in inner:
-                    visit(c, sign)
-            visit(body_of(fd), None)
+                    visit(c, sign, sizes)
+            visit(body_of(fd), None, sizes)
     if n == 0:
         out.undecided(rid, "anchor/WriteInteger", rel, "no varint call found in WriteInteger/ReadInteger")
 
@@ -2337,7 +2370,8 @@ def rule_ndjson_lookahead(out, tier):
     bad = {"delivered": None, "consumed": None, "required": None, "kept": None, "stored": None}
     for p in paths:
         calls = [e[1] for e in p.events if e[0] == "call"]
-        had_look = any(l == "operator bool()" and v for l, v in p.lits)
+        # a path that reads no new line works on the look-ahead line
+        had_look = not any(c.startswith("getline(") or c.startswith("parse(") for c in calls)
         # the entry is selected by the step's name: a lookup member, or a helper that receives the name (string building for messages is not a lookup)
         looked_up = any(re.search(r"[(, ]%s[,)]" % re.escape(step), c) and not re.match(r"(operator\+|runtime_error|basic_string|to_string|append)", c) for c in calls)
         converted = any(re.search(r"\(%s\)$" % re.escape(val), c) and not c.startswith(("at(", "parse(")) for c in calls)
